@@ -23,6 +23,8 @@ OUTBASE = os.environ.get('VERIF_OUT', ROOT)     # evidence/ and replays/ go here
 INC = os.path.join(REPO, 'fixed_lib', 'include')
 SRC = os.path.join(REPO, 'fixed_lib', 'src')
 GUARD = 'FIXEDMATH_VERIF'
+SCALE = float(os.environ.get('VERIF_SCALE', '1') or 1)      # mutation sweeps run the quick tier at a fraction of its budget
+NOEXTRA = bool(os.environ.get('VERIF_NOEXTRA'))            # ... and without the fuzz / consteval engines
 
 def log(*a):
     print(*a, file=sys.stderr, flush=True)
@@ -251,7 +253,7 @@ def check(prop, tier):
         sos = [paths[n] for n in cfgnames[fam]]
         t = c[tier]
         nw = max(1, min(JOBS, t.get('workers', JOBS)))
-        per = max(1, t.get('n', 1000) // nw)
+        per = max(1, int(t.get('n', 1000) * SCALE) // nw)
         for w in range(nw):
             out = os.path.join(work, '%s.%d.json' % (c['id'], w))
             argv = [exe, 'run', c['id'], '--tier', tier, '--seed', str(seed), '--worker', str(w), '--nworkers', str(nw), '--n', str(per), '--out', out, '--kf', kf_txt] + sos
@@ -268,7 +270,7 @@ def check(prop, tier):
             continue
         r = json.load(open(out)); r['_sos'] = sos; r['_rc'] = rc; r['_out'] = out; results.append(r)
     extra_results = []
-    for fn in spec.get('extra', []):
+    for fn in ([] if NOEXTRA else spec.get('extra', [])):
         extra_results.append(fn(dict(prop=prop, tier=tier, seed=seed, work=work, exe=exe, known=known, kf_txt=kf_txt, build_cuts=build_cuts, paths=paths, repo=REPO, root=ROOT, jobs=JOBS, log=log)))
 
     # ---- violations: confirm each shrunk failure 3x through the plain replay path
